@@ -11,6 +11,7 @@ from scikit_tt.tensor_train import TT
 import scikit_tt.solvers.sle as sle
 import scikit_tt.solvers.evp as evp
 import scikit_tt.solvers.ode as ode
+lib.guard_expm(ode)
 import scikit_tt.data_driven.tdmd as tdmd
 import scikit_tt.data_driven.regression as reg
 import scikit_tt.data_driven.transform as tdt
